@@ -433,6 +433,16 @@ func genC16Misuse(t *rapid.T) *DCase {
 	for k := 0; k < nargs; k++ {
 		args = append(args, rapid.SampledFrom(argPool).Draw(t, "arg").Clone())
 	}
+	var pre []*ast.Node
+	if rapid.IntRange(0, 3).Draw(t, "viavar") == 0 && recv.K != "id" {
+		// the receiver sits in a variable that an argument reassigns while the
+		// arguments are evaluated
+		pre = append(pre, ast.ExprS(ast.Set(ast.Id("rv"), recv)))
+		recv = ast.Id("rv")
+		if rapid.Bool().Draw(t, "reassign") {
+			args = append(args, ast.Set(ast.Id("rv"), rapid.SampledFrom(argPool).Draw(t, "newrecv").Clone()))
+		}
+	}
 	var call *ast.Node
 	if rapid.IntRange(0, 4).Draw(t, "builtin") == 0 {
 		call = ast.Call(ast.Id(rapid.SampledFrom([]string{"num", "json", "printf"}).Draw(t, "bi")), append([]*ast.Node{recv}, args...)...)
@@ -442,11 +452,11 @@ func genC16Misuse(t *rapid.T) *DCase {
 	} else {
 		call = ast.Method(recv, rapid.SampledFrom(c16Methods).Draw(t, "method"), args...)
 	}
-	stmts := []*ast.Node{
+	stmts := append(pre,
 		ast.Print(ast.Str("before")),
 		ast.ExprS(ast.Set(ast.Id("r"), call)),
 		ast.Print(ast.Str("after"), ast.Is(ast.Id("r"), "null"), ast.Is(ast.Id("r"), "number"), ast.Is(ast.Id("r"), "string"), ast.Is(ast.Id("r"), "array"), ast.Is(ast.Id("r"), "object")),
-	}
+	)
 	return &DCase{
 		Prog:  ast.Prog(ast.Func("fun", nil, ast.Block(ast.Return(ast.Num("1")))), ast.Rule("pattern", nil, ast.Block(stmts...))),
 		Files: []DFile{{Name: "in", Docs: []string{`{"a":1}`}}},
@@ -484,7 +494,7 @@ func TestC16(t *testing.T) {
 	excl.ArrayAlias = rec.KnownActive("KF-array-alias", false)
 	rec.ReplayTier()
 
-	check(rec, "contract-random", scale(20000, 600000), func(rt *rapid.T) {
+	check(rec, "contract-random", scale(20000, 20000000), func(rt *rapid.T) {
 		c, labels := genC16(rt)
 		msg := c16Check(c)
 		nt := false
@@ -502,7 +512,7 @@ func TestC16(t *testing.T) {
 		}
 	})
 
-	check(rec, "misuse-random", scale(8000, 200000), func(rt *rapid.T) {
+	check(rec, "misuse-random", scale(8000, 8000000), func(rt *rapid.T) {
 		c := genC16Misuse(rt)
 		msg := c16MisuseCheck(c)
 		rec.Case(c.Source(), true, "misuse")
@@ -521,7 +531,9 @@ func c16MisuseCheck(c *DCase) string {
 	if d.Impl.Class != "ok" && d.Impl.Class != "runtime" {
 		return fmt.Sprintf("outcome %s (%s%s): a method or builtin invoked on another kind of receiver or with missing arguments must give a value or a runtime error", d.Impl.Class, d.Impl.Msg, d.Impl.Panic)
 	}
-	if d.Verdict == "fail" {
+	if d.Verdict == "fail" && !strings.Contains(d.Src, "( rv = ") && !strings.Contains(d.Src, ", rv = ") {
+		// (which value a method acts on when an argument reassigns the receiver's
+		// variable is not specified: only "value or runtime error" is asserted there)
 		return d.Reason
 	}
 	return ""
